@@ -114,6 +114,22 @@ def gen(rp, rw, tier):
         s, m = _src(rp)
         pool.append(s)
         meta.append(m)
+    twin_target = None
+    if rp.random() < 0.25:
+        # both occurrences of one repeated wall time, as two values of the same zone object: they
+        # are == and hash alike for the standard library, yet denote instants an hour apart -
+        # whatever is remembered about one must not answer for the other
+        z = rp.choice(gen_dt.DST_ZONES + gen_dt.MIDNIGHT_ZONES)
+        ov = [(t, o0, o1) for t, o0, o1 in tzdb.transitions(z) if o1 < o0]
+        if ov:
+            t, o0, o1 = rp.choice(ov)
+            w = tzdb.us_to_fields((t + o1) * US + rp.randrange(0, (o0 - o1) * US))
+            ts = tzdb.wall_to_instants(z, w)
+            if len(ts) == 2:
+                for fold in rp.sample([0, 1], 2):
+                    pool.append({"$": "dt", "f": w, "tz": z, "fold": fold})
+                    meta.append({"inst": ts[fold], "zone": z, "kind": "pendulum:constructed"})
+                twin_target = rp.choice([zz for zz in ZONES if zz != z])
     # a shared set of fixed offsets several clients will ask for while the cache is cold
     hot = rw.sample(FIXED, 3)
     actors = []
@@ -132,6 +148,8 @@ def gen(rp, rw, tier):
                 continue
             if x < 0.35:
                 z = _zone(rp) if rp.random() < 0.8 else rp.choice(hot)
+                if twin_target is not None and i >= len(pool) - 2:
+                    z = twin_target
                 ops.append(["call", T, rp.choice(["in_tz", "in_timezone"]), [_tzarg(rp, z)]])
                 if rp.random() < 0.45:
                     # chain A -> B -> C
